@@ -448,9 +448,9 @@ namespace xtl
         xdynamic_bitset(const xdynamic_bitset_base<Y>& rhs);
 
         ~xdynamic_bitset() = default;
-        xdynamic_bitset(xdynamic_bitset&& rhs) = default;
+        xdynamic_bitset(xdynamic_bitset&& rhs) noexcept;
         xdynamic_bitset& operator=(const xdynamic_bitset& rhs) = default;
-        xdynamic_bitset& operator=(xdynamic_bitset&& rhs) = default;
+        xdynamic_bitset& operator=(xdynamic_bitset&& rhs);
 
         void assign(size_type count, bool b);
         template <class BlockInputIt>
@@ -523,6 +523,25 @@ namespace xtl
     inline xdynamic_bitset<B, A>::xdynamic_bitset(const xdynamic_bitset_base<Y>& rhs)
         : base_type(storage_type(rhs.block_begin(), rhs.block_end()), rhs.size())
     {
+    }
+
+    template <class B, class A>
+    inline xdynamic_bitset<B, A>::xdynamic_bitset(xdynamic_bitset&& rhs) noexcept
+        : base_type(std::move(rhs))
+    {
+        // the buffer was moved out of rhs: its size must not outlive its blocks
+        rhs.clear();
+    }
+
+    template <class B, class A>
+    inline auto xdynamic_bitset<B, A>::operator=(xdynamic_bitset&& rhs) -> xdynamic_bitset&
+    {
+        if (this != &rhs)
+        {
+            base_type::operator=(std::move(rhs));
+            rhs.clear();
+        }
+        return *this;
     }
 
     template <class B, class A>
